@@ -358,3 +358,20 @@ PLAN["C14"] = {
                  {"test": "TestC14_Immediate", "rapid": False, "n": {"CYCLES": 100000}, "env": {"GOMAXPROCS": "4"}, "timeout": 3000},
                  {"test": "TestC14_CLI", "rapid": False, "n": {"CLIRUNS": 20}, "cli": True, "timeout": 3000}],
 }
+
+PLAN["C17"] = {
+    "level": "exploration",
+    "rule": ("(Committed, exhaustive over the model) ExtractLean(30,4) from the current Go circuits is compared with the committed formal-verification/FormalVerification.lean: the whole text, and every top-level definition by name "
+             "(missing, extra, differing: ~55 obligations); every identifier the hand-written Lean proofs refer to (SemaphoreMTB.<id> and 'open SemaphoreMTB renaming <id>' in Main.lean and FormalVerification/*.lean, ~30) must be defined "
+             "by the fresh extraction; extraction at depth 32/33/40 must fail. (Sweep, rapid) drawn (depth 1..31, batch 1..16): two extractions in one process are identical, end with 'end SemaphoreMTB' and contain the two circuit "
+             "definitions with the dimension-suffixed names; a quarter of the cases run 'extract-circuit' through the built binary in a fresh process with GOMAXPROCS in {1,2,3,16} (a third of those at (30,4)) and compare with the in-process text. "
+             "Every comparison is non-trivial; definitions/identifiers are distinct by name, sweep points by SHA-1."),
+    "assumptions": A_COMMON + ["the Lean proofs themselves are NOT rebuilt: the toolchain (lean4 nightly-2023-07-12), mathlib commit and ProvenZK pinned by the repository cannot be installed offline; the property as stated is about the model text and identifier closure"],
+    "technique": "differential testing of extraction output against the committed artefact (per definition), identifier-closure check, metamorphic determinism sweep in and across processes",
+    "level_text": "Exhaustive over the definitions of the extracted model at the proof dimensions and over the identifiers the proofs use; sampled sweep of other dimensions and process configurations for determinism.",
+    "level_note": "decided at the level of the extracted model text; does not re-check that the Lean theorems still hold",
+    "quick": [{"test": "TestC17_Committed", "rapid": False, "timeout": 600},
+              {"test": "TestC17_Sweep", "checks": 16, "shards": 2, "cli": True, "timeout": 900}],
+    "thorough": [{"test": "TestC17_Committed", "rapid": False, "timeout": 600},
+                 {"test": "TestC17_Sweep", "checks": 60, "shards": 8, "cli": True, "timeout": 3000}],
+}
